@@ -1,7 +1,7 @@
 /-
   C11 proofs, part 7: `keys_sufficient` — every Galois key the rotate-and-accumulate loop looks
   up belongs to the advertised list for the same arguments.  Purely combinatorial: no hypothesis
-  on the carrier, on `nthRoot`, or on overflow.
+  on the carrier, on `nthRoot`, on the presence of `P`, or on overflow.
 -/
 import Lattigo.Proofs.InnerSumBasic
 
@@ -14,7 +14,7 @@ variable {α : Type}
 def Req (N n : Nat) (off : Int) (r : Nat) : Prop :=
   ∃ i, 2 ^ i < n ∧
     (r = galEl N (wrapInt (((2 ^ i : Nat) : Int) * off)) ∨
-     (n / 2 ^ i % 2 = 1 ∧ wrapInt (((n - n % 2 ^ (i + 1) : Nat) : Int) * off) ≠ 0 ∧
+     (n / 2 ^ i % 2 = 1 ∧ n - n % 2 ^ (i + 1) ≠ 0 ∧
         r = galEl N (wrapInt (((n - n % 2 ^ (i + 1) : Nat) : Int) * off))))
 
 theorem mem_request {lazy : Bool} {g r : Nat} {reqs : List Nat} (h : r ∈ request lazy g reqs) :
@@ -33,17 +33,17 @@ theorem ptsStep_reqs (S : Ops α) (f : α → α → α) (lazy : Bool) (N n : Na
     have : 2 ^ i * 1 ≤ 2 ^ i * (n / 2 ^ i) := Nat.mul_le_mul_left _ hj
     omega
   -- if 2^i = n then the rotation amount of the odd branch is 0
-  have htop : ¬ 2 ^ i < n → wrapInt (((n - n % 2 ^ (i + 1) : Nat) : Int) * off) = 0 := by
+  have htop : ¬ 2 ^ i < n → n - n % 2 ^ (i + 1) = 0 := by
     intro h
     have hn : n = 2 ^ i := by omega
     have : n % 2 ^ (i + 1) = n := Nat.mod_eq_of_lt (by rw [hn, pow_succ]; omega)
-    rw [this]; simp [wrapInt]
+    rw [this]; simp
   intro r hr
   unfold ptsStep at hr
   simp only [and_mask, shl_one] at hr
   by_cases hodd : n / 2 ^ i % 2 = 1
   · simp only [hodd, if_true] at hr
-    by_cases hk : wrapInt (((n - n % 2 ^ (i + 1) : Nat) : Int) * off) = 0
+    by_cases hk : n - n % 2 ^ (i + 1) = 0
     · -- top-like turn: state := true, no look-up at all
       simp only [hk, ne_eq, not_true_eq_false, if_false] at hr
       by_cases hp : n &&& (n - 1) = 0
@@ -210,10 +210,10 @@ theorem req_mem_adv (N : Nat) (off n : Int) (hn : n ≤ 4611686018427387904) :
 /-- **`keys_sufficient` for `PartialTracesSum` / `RotateAndAdd`**: for *every* Go `int` pair
     `(offset, n)` with `n ≤ 2^62` (zero and negative values included) the advertised list
     `GaloisElementsForInnerSum(offset, n)` exists and contains every key the call looks up. -/
-theorem partialTracesSum_keys (S : Ops α) (N : Nat) (v out0 acc0 : α) (offset n : Int)
+theorem partialTracesSum_keys (S : Ops α) (N : Nat) (hasP : Bool) (v out0 acc0 : α) (offset n : Int)
     (hn : n ≤ 4611686018427387904) :
     ∃ l, galoisElementsForInnerSum N offset n = some l ∧
-      ∀ r ∈ (partialTracesSum S N v out0 acc0 offset n).reqs, r ∈ l := by
+      ∀ r ∈ (partialTracesSum S N hasP v out0 acc0 offset n).reqs, r ∈ l := by
   obtain ⟨l, hl, hmem⟩ := req_mem_adv N offset n hn
   refine ⟨l, hl, ?_⟩
   intro r hr
@@ -222,11 +222,13 @@ theorem partialTracesSum_keys (S : Ops α) (N : Nat) (v out0 acc0 : α) (offset 
   · simp [Res.reqs] at hr
   · split at hr
     · simp [Res.reqs] at hr
-    · simp only [Res.reqs] at hr
-      have := ptsLoop_reqs S S.add true N n.toNat offset 64 0 _ r (by simpa using hr)
-      rcases this with h | h
-      · simp at h
-      · exact hmem r h
+    · split at hr
+      · simp [Res.reqs] at hr
+      · simp only [Res.reqs] at hr
+        have := ptsLoop_reqs S S.add true N n.toNat offset 64 0 _ r (by simpa using hr)
+        rcases this with h | h
+        · simp at h
+        · exact hmem r h
 
 /-- same for `InnerFunction` (which uses the list of `InnerSum`). -/
 theorem innerFunction_keys (S : Ops α) (f : α → α → α) (N : Nat) (v out0 acc0 : α) (batch n : Int)
@@ -239,26 +241,28 @@ theorem innerFunction_keys (S : Ops α) (f : α → α → α) (N : Nat) (v out0
   unfold innerFunction at hr
   split at hr
   · simp [Res.reqs] at hr
-  · simp only [Res.reqs] at hr
-    have := ptsLoop_reqs S f false N n.toNat batch 64 0 _ r (by simpa using hr)
-    rcases this with h | h
-    · simp at h
-    · exact hmem r h
+  · split at hr
+    · simp [Res.reqs] at hr
+    · simp only [Res.reqs] at hr
+      have := ptsLoop_reqs S f false N n.toNat batch 64 0 _ r (by simpa using hr)
+      rcases this with h | h
+      · simp at h
+      · exact hmem r h
 
 /-- `Replicate` with `GaloisElementsForReplicate`. -/
-theorem replicate_keys (S : Ops α) (N : Nat) (v out0 acc0 : α) (batch n : Int)
+theorem replicate_keys (S : Ops α) (N : Nat) (hasP : Bool) (v out0 acc0 : α) (batch n : Int)
     (hn : n ≤ 4611686018427387904) :
     ∃ l, galoisElementsForReplicate N batch n = some l ∧
-      ∀ r ∈ (replicate S N v out0 acc0 batch n).reqs, r ∈ l := by
+      ∀ r ∈ (replicate S N hasP v out0 acc0 batch n).reqs, r ∈ l := by
   unfold galoisElementsForReplicate replicate
-  exact partialTracesSum_keys S N v out0 acc0 _ n hn
+  exact partialTracesSum_keys S N hasP v out0 acc0 _ n hn
 
 /-- `ckks.Evaluator.InnerSum` with `ckks.Parameters.GaloisElementsForInnerSum`. -/
-theorem innerSumCKKS_keys (S : Ops α) (N slots : Nat) (v out0 acc0 : α) (batch n : Int)
+theorem innerSumCKKS_keys (S : Ops α) (N slots : Nat) (hasP : Bool) (v out0 acc0 : α) (batch n : Int)
     (hn : n ≤ 4611686018427387904) :
     ∃ l, galoisElementsForInnerSum N batch n = some l ∧
-      ∀ r ∈ (innerSumCKKS S N slots v out0 acc0 batch n).reqs, r ∈ l := by
-  obtain ⟨l, hl, hmem⟩ := partialTracesSum_keys S N v out0 acc0 batch n hn
+      ∀ r ∈ (innerSumCKKS S N slots hasP v out0 acc0 batch n).reqs, r ∈ l := by
+  obtain ⟨l, hl, hmem⟩ := partialTracesSum_keys S N hasP v out0 acc0 batch n hn
   refine ⟨l, hl, ?_⟩
   intro r hr
   unfold innerSumCKKS at hr
